@@ -120,6 +120,10 @@ def c06(tr, viol):
                     common = (set(auth) & set(fr["auth"])) or (set(acct) & set(fr["acct"]))
                     relay = 0xffffffff in fr["auth"] or 0xffffffff in fr["acct"]
                     want = 2001 if (known and (common or relay)) else (3010 if not known else 5010)
+                    # RFC 6733 5.6.4: the peer already has a connection (established or being dialled) -> election
+                    rival = any(c[0] != cid and c[3] == host for c in before["conns"])
+                    if known and rival and not (tr.cfg["host"].lower() > host):
+                        want = 4003
                     cea = next((s for s in o["sends"].get(cid, []) if s["cmd"] == "CE" and not s["req"]), None)
                     ca = conn_of(o["snap"], cid)
                     if cea is None and (cid in o["stalled"] or cid in o["closed"]):
@@ -128,10 +132,10 @@ def c06(tr, viol):
                         viol("cer-outcome", case_of(tr, i), cea, want, what=f"CER outcome should be {want}")
                     elif want == 2001 and not (ca and ca[2] in (2, 3, 4, 5)):
                         pass
-                    elif want == 3010 and ca is not None:
+                    elif want in (3010, 4003) and ca is not None:
                         if cid not in o["stalled"]:
-                            viol("cer-outcome", case_of(tr, i), "connection still open after 3010",
-                                 what="unknown peer: connection not closed after the 3010 CEA")
+                            viol("cer-outcome", case_of(tr, i), f"connection still open after {want}",
+                                 what=f"connection not closed after the {want} CEA")
                     elif want == 5010 and ca is not None and ca[2] in (2, 3):
                         viol("cer-outcome", case_of(tr, i), "ready after 5010")
 
